@@ -696,9 +696,17 @@ func (o *Options) GetWriteL0SlowdownTrigger() int {
 	return o.WriteL0SlowdownTrigger
 }
 
+// maxFilterBaseLg is the largest usable FilterBaseLg: the table writer and
+// reader use it as a shift count on a 64-bit file offset.
+const maxFilterBaseLg = 63
+
 func (o *Options) GetFilterBaseLg() int {
 	if o == nil || o.FilterBaseLg <= 0 {
 		return DefaultFilterBaseLg
+	}
+	// 1<<FilterBaseLg is zero from 64 on and the table writer divides by it.
+	if o.FilterBaseLg > maxFilterBaseLg {
+		return maxFilterBaseLg
 	}
 	return o.FilterBaseLg
 }
